@@ -161,11 +161,26 @@ def t07_id(run, fx, floors):
                     term = prov.rvalue(s["rv"])
                     got = space_of(b, term)
                     if got is None:
-                        # new_id is a multi-definition-free local assigned from position().unwrap_or_else(..): accept the named pattern
-                        names = [x[2] for x in sym.walk(term) if x[0] == "local" and len(x) > 2]
-                        calls = [(x[4] or x[1] or "") for x in sym.walk(term) if x[0] == "call"]
+                        # a position in the list of new ids: found by position(), or the list's length read before the child is appended;
+                        # written as position().unwrap_or_else(|| ..) or as a match whose arms are merged into one variable
+                        inner = sym.strip(term)
+                        while inner[0] == "cast":
+                            inner = sym.strip(inner[4])
+                        calls = [(x[4] or x[1] or "") for x in sym.walk(inner) if x[0] == "call"]
                         if any(c.endswith("Option::<T>::unwrap_or_else") for c in calls):
                             got = "NEW" if any(c.endswith("Iterator::position") for c in calls) else None
+                        else:
+                            alts = sym.alternatives(b, prov, inner)
+                            def is_pos(v):
+                                v = sym.strip(v)
+                                if v[0] == "field" and v[1][0] == "variant" and v[1][2] == "Some":
+                                    c0 = sym.strip(v[1][1])
+                                    return c0[0] == "call" and (c0[4] or c0[1] or "").endswith("Iterator::position")
+                                if v[0] == "call" and (v[4] or v[1] or "").endswith("::len"):
+                                    return any(x[0] == "arg" and x[2] == "glyph_ids" for x in sym.walk(v))
+                                return False
+                            if len(alts) >= 2 and all(is_pos(v) for _, v in alts):
+                                got = "NEW"
                     if got == "NEW":
                         run.ok(rule, "add_glyph: component glyph_index is rewritten to its position in the subset list (new id)")
                     else:
